@@ -534,6 +534,13 @@ Definition cmd_id (c : cmd) : Z :=
   | ViVisual _ _ k _ => 40 + k
   end.
 Definition ARG_ID : Z := 99.
+(* C-w reaches two different Binding objects: unix-word-rubout (basic.py) without
+   a selection, emacs.py's _cut with one; is_repeat compares Binding objects *)
+Definition binding_id (sel : bool) (c : cmd) : Z :=
+  match c with
+  | CtrlW => if sel then 20 else 4
+  | _ => cmd_id c
+  end.
 
 (* commands bound with filter=emacs_insert_mode (inactive while a selection exists) *)
 Definition insert_only (c : cmd) : bool :=
@@ -597,12 +604,13 @@ Definition step (s : st) (c : cmd) (argp : option Z) : out :=
       (* KeyPressEvent.arg: "Don't exceed a million" *)
       let arg := match argp with Some a => if 1000000 <=? a then 1 else a | None => 1 end in
       let prev := match argp with Some _ => ARG_ID | None => sprev s end in
-      let rep := prev =? cmd_id c in
+      let bid := binding_id (has_sel s) c in
+      let rep := prev =? bid in
       (* the digit keys are handlers too: in Vi navigation mode each of them
          is followed by _fix_vi_cursor_position *)
       let s0 := match argp with Some _ => fix_vi_cursor s | None => s end in
       let '(code, s') := exec s0 c arg rep in
-      if code =? 0 then (0, with_prev (fix_vi_cursor s') (cmd_id c))
+      if code =? 0 then (0, with_prev (fix_vi_cursor s') bid)
       else if code =? E_UNMODELLED then (code, s)
       else (code, with_prev s' 0)                (* process_keys: reset() then re-raise *)
   end.
